@@ -111,8 +111,9 @@ def handle (inp out : List String) : String :=
       verdict out out prop
     | _, _, _, _ => "BADLINE c12 scale"
   | ["awgn", sg, cnt] =>
-    match parseF sg, cnt.toNat?, out.mapM parseF with
+    match parseF sg, cnt.toNat?, (out.take 14).mapM parseF with
     | some sigma, some n, some [mre, vre, lre, qre, mim, vim, lim, qim, cov, cross1, mr, vr, lr, qr] =>
+      let untouched := out.getD 14 "0"
       let N := Float.ofNat n
       let s2 := sigma * sigma
       let bad (nm : String) (m v l q : Float) : Option String :=
@@ -122,7 +123,7 @@ def handle (inp out : List String) : String :=
         -- 4th central moment of a Gaussian is 3 sigma^4, its estimator has variance 96 sigma^8 / N
         else if (q - 3 * s2 * s2).abs > 6 * s2 * s2 * (96 / N).sqrt then some s!"{nm}-noise-fourth-moment-not-Gaussian {q} vs {3 * s2 * s2}"
         else none
-      let prop := firstSomeS [bad "real-part" mre vre lre qre, bad "imaginary-part" mim vim lim qim, bad "real-channel" mr vr lr qr,
+      let prop := firstSomeS [(if untouched ≠ "0" then some s!"{untouched}-samples-received-no-noise" else none), bad "real-part" mre vre lre qre, bad "imaginary-part" mim vim lim qim, bad "real-channel" mr vr lr qr,
         (if cov.abs > 6 * s2 / N.sqrt then some s!"real-and-imaginary-noise-correlated {cov}" else none),
         (if cross1.abs > 6 * s2 / N.sqrt then some s!"imaginary-noise-correlated-with-next-real-noise {cross1}" else none)]
       verdict out out prop
